@@ -402,6 +402,10 @@ def gen_symomega_cases(rng, tier):
             src.append({'name': p[0], 'prefix': prefix, 'desc': d, 'P': src_P(d)})
         if not src:
             continue
+        if not any(re.match(r'^[CL]\d', l) for l in lines):
+            # purely resistive circuits are analysed in the time domain (no phasors): add a capacitor
+            nd = [n_ for n_ in src[0]['prefix'].split()[1:3] if n_ != '0']
+            lines.append('C9 %s 0 {1/2}' % nd[0])
         case = {'netlist': lines, 'src': src, 'tags': sorted(set(nl['tags']) | {'symbolic_omega', 'nsym%d' % len(names)}),
                 'omega_points': {k_: SYM_POINTS[k_] for k_ in names}, 'ntime': 2}
         vs = [s_ for s_ in src if s_['name'][0] == 'V']
@@ -1143,6 +1147,13 @@ def run(tier='quick', replay=None):
             res.count('ac_kinds', len(wr.get('ac', {})))
             # independent oracle
             case0 = case
+            if case.get('omega_points'):
+                # the angular frequencies of the ac sub-netlists must be the symbols the sources were given
+                exp_k = set(t_['w'] for s_ in case['src'] for t_ in src_terms(s_['desc']))
+                for k_ in wr.get('kinds', []):
+                    if k_ not in exp_k and k_ not in ('dc', 's', 't', 'time', 'ivp', 'transient', 'laplace', 'super') and not re.match(r'^n\d', k_):
+                        res.counterexamples.append({'case': case0, 'what': 'ac sub-netlist of angular frequency %s' % k_,
+                                                    'reported': 'kinds %s' % wr.get('kinds'), 'expected': 'kinds among %s' % sorted(exp_k)})
             for wkey, ad in wr.get('ac', {}).items():
                 if 'error' in ad:
                     continue
